@@ -33,7 +33,32 @@ MENU = [
     ("adapt:red_sum_scale", "a [b]", ["x"], {"scale": 2}, False),
     ("adapt:el_axpy", "a b, b", ["x", "r"], {"alpha": 3}, False),
     ("solve_axes", "a b, b", ["x", "r"], {}, False),
+    # the same axis names in another order / other names: per-call scratch state of the translation (e.g. einsum letters) must not leak between threads
+    ("dot", "b a, b -> a", ["x", "c2"], {}, False),
+    ("dot", "c a, c -> a", ["x", "c2"], {}, True),
+    ("sum", "b [a]", ["x"], {}, True),
+    ("multiply", "b a, a -> a b", ["x", "r"], {}, False),
 ]
+
+
+_FILES = []
+
+
+def einx_files():
+    """Source files of the tree under test that take part in a call (relative to einx/), in a fixed order."""
+    if not _FILES:
+        import os
+
+        root = os.path.join(seams.REPO, "einx")
+        for d, _, fs in sorted(os.walk(os.path.join(root, "_src"))):
+            rel = os.path.relpath(d, root)
+            if any(x in rel for x in ("frontend/impl", "adapter/torch", "adapter/jax", "adapter/mlx", "adapter/tensorflow", "adapter/tinygrad", "adapter/functorchdim", "adapter/arrayapi")):
+                continue
+            for f in sorted(fs):
+                if f.endswith(".py") and f != "__init__.py" or (f == "__init__.py" and "compiler/python" in rel):
+                    _FILES.append(os.path.join(rel, f))
+        _FILES.append("_src/frontend/impl/numpy.py")
+    return _FILES
 
 
 # ------------------------------------------------------------------------------------------------
@@ -96,7 +121,10 @@ def gen_case(seed, cfg, index=0):
     else:
         warm = []
     pk = r.random()
-    if pk < 0.7:
+    if pk < 0.3:
+        # targeted: park one thread inside some function of a random einx file until another thread has passed through the same function
+        policy = {"kind": "stall", "file": r.choice(einx_files()), "k": int(10 ** r.uniform(0, 1.8)), "m": r.choice([5, 20, 60]), "p": r.choice([0.03, 0.01, 0.003]), "seed": r.randrange(1 << 30)}
+    elif pk < 0.75:
         policy = {"kind": "random", "p": r.choice([0.3, 0.1, 0.03, 0.01, 0.003]), "seed": r.randrange(1 << 30)}
     else:
         d = r.choice([1, 2, 3])
@@ -108,7 +136,7 @@ def gen_case(seed, cfg, index=0):
 # ------------------------------------------------------------------------------------------------
 # worker side
 # ------------------------------------------------------------------------------------------------
-W = types.SimpleNamespace(table=None, x=None, r=None, back=None, stacks=None, adapters=None)
+W = types.SimpleNamespace(table=None, x=None, r=None, c2=None, back=None, stacks=None, adapters=None)
 
 
 def worker_init(cfg):
@@ -117,6 +145,7 @@ def worker_init(cfg):
     einx = seams.bootstrap(warmup=True)
     W.x = np.arange(1.0, 7.0).reshape(2, 3)
     W.r = np.arange(1.0, 4.0)
+    W.c2 = np.arange(1.0, 3.0)
     seams.reset_world(0)
     W.back = {n: einx.backend.get(n) for n in TRIO}
     # single-threaded outcome table: every menu call under every numpy backend, given as object
@@ -154,7 +183,7 @@ def _outcome(f):
 def _do_call(cid, backend):
     einx = seams.WORLD.einx
     op, desc, args, kw, graph = MENU[cid]
-    ts = [W.x if a == "x" else W.r for a in args]
+    ts = [W.x if a == "x" else (W.c2 if a == "c2" else W.r) for a in args]
     kw = dict(kw)
     if op.startswith("adapt:"):
         return W.adapters[op[6:]](desc, *ts, **kw)
@@ -393,6 +422,8 @@ def exec_case(case, cfg):
     pol = case["policy"]
     if pol["kind"] == "random":
         policy = sched.RandomPolicy(rng.stream(pol["seed"], "sched"), pol["p"])
+    elif pol["kind"] == "stall":
+        policy = sched.RandomPolicy(rng.stream(pol["seed"], "sched"), pol["p"])
     elif pol["kind"] == "pct":
         policy = sched.PCTPolicy(rng.stream(pol["seed"], "sched"), pol["points"])
     else:
@@ -400,6 +431,8 @@ def exec_case(case, cfg):
     opcode_files = ("frontend/backend.py", "tracer/graph.py", "util/lru_cache.py") if case.get("opcode") else ()
     s = sched.Scheduler(policy, seams.einx_dir(), opcode_files=opcode_files, step_cap=cfg.get("step_cap", 2_000_000),
                         hot=("frontend/backend.py", "tracer/graph.py", "util/lru_cache.py", "frontend/api.py", "adapter/torch/devicestack.py", "adapter/arrayapi/namespacestack.py"))
+    if pol["kind"] == "stall":
+        s.stall = sched.Stall(pol["file"], pol["k"], pol["m"])
     ops_by = {}
     programs = []
     for t, prog in enumerate(case["threads"]):
@@ -419,13 +452,15 @@ def exec_case(case, cfg):
     nops = sum(len(p) for p in case["threads"])
     stats = {"ops": nops, "ok_calls": sum(1 for e in events if e["op"][0] == "call" and e["out"][0] != "exc"), "steps": s.total_steps, "switches": len(s.switches), "runs_with_cold_compile": int(len(case.get("warm", [])) < len({o[1] for p in case["threads"] for o in p if o[0] == "call"}))}
     faults = {k: v for k, v in s.stats.items() if k.startswith("F-")}
+    faults["F-stall"] = s.stats.get("stalls", 0)
     probes = {"boundary_switches": s.stats["boundary_switches"], "switch_inside_registry_get": s.preempt_where.get("get", 0) + s.preempt_where.get("_get", 0) + s.preempt_where.get("__init__", 0),
               "switch_inside_enter_exit": s.preempt_where.get("enter", 0) + s.preempt_where.get("exit", 0) + s.preempt_where.get("_enter", 0) + s.preempt_where.get("_exit", 0),
               "switch_inside_check_new_imports": s.preempt_where.get("_check_new_imports", 0) + s.preempt_where.get("<genexpr>", 0),
               "switch_inside_cache_wrapper": s.preempt_where.get("func_frozen", 0) + s.preempt_where.get("_freeze_value", 0),
               "switch_inside_api_inner": s.preempt_where.get("inner", 0) + s.preempt_where.get("_construct_graph", 0) + s.preempt_where.get("_to_tracer", 0),
               "switch_inside_dependon": s.preempt_where.get("__enter__", 0) + s.preempt_where.get("__exit__", 0),
-              "overlapping_with_blocks": 0, "concurrent_cold_compile_same_call": 0,
+              "overlapping_with_blocks": 0, "concurrent_cold_compile_same_call": 0, "stall_other_thread_entered_same_function": s.stats.get("stall_other_thread_entered_same_function", 0),
+              "virtual_timeouts_fired": s.stats.get("timeouts_fired", 0),
               "switch_inside_device_or_namespace_stack": s.preempt_where.get("_enter", 0) + s.preempt_where.get("_get_stack", 0) + s.preempt_where.get("get_device", 0) + s.preempt_where.get("get_xp", 0)}
     log = {"seed": case["seed"], "threads": case["threads"], "events": [[e["thread"], e["idx"], e["inv"], e["ret"], e["out"]] for e in sorted(events, key=lambda e: e["inv"])],
            "switches": [[a, b, c] for a, b, c, _ in s.switches], "final": final_real, "aborted": s.aborted}
